@@ -56,9 +56,38 @@ func subset(t *rapid.T, label string, pool []string, min, max int) []string {
 	return rapid.SliceOfNDistinct(rapid.SampledFrom(pool), min, max, rapid.ID[string]).Draw(t, label)
 }
 
+// histNSEdgePool: namespaces whose FIRST BYTE lies at the ends of the byte range / of the UTF-8 lead
+// bytes. The namespace dictionary uses the first byte of the name as its bucket and SuggestNamespace
+// walks the buckets one by one, so these names live in the first / last buckets a legal (valid UTF-8,
+// not changed by sanitising) name can reach: 0x00, 0x01, 0x7f, 0xc2 (first 2-byte lead), 0xdf, 0xe0,
+// 0xef, 0xf0, 0xf4 (last lead byte). The other pools only reach the buckets of 'd' and 'n'.
+var histNSEdgePool = []string{"\x00ns", "\x00", "\x01n", "\x7fns", "\u0080ns", "\u07ffn", "\u0800ns", "\uffeens",
+	"\U00010000ns", "\U0010ffffns", "\U0010ffff"}
+
+// nsBucketClass names the class of the dictionary bucket (first byte) of a namespace.
+func nsBucketClass(ns string) string {
+	switch b := ns[0]; {
+	case b == 0:
+		return "namespace-bucket=0x00"
+	case b < 0x20 || b == 0x7f:
+		return "namespace-bucket=control-byte"
+	case b < 0x80:
+		return "namespace-bucket=ascii"
+	case b == 0xf4:
+		return "namespace-bucket=0xf4-last-utf8-lead"
+	case b < 0xe0:
+		return "namespace-bucket=utf8-lead-2-byte"
+	case b < 0xf0:
+		return "namespace-bucket=utf8-lead-3-byte"
+	default:
+		return "namespace-bucket=utf8-lead-4-byte"
+	}
+}
+
 func drawUniverse(t *rapid.T) universe {
 	return universe{
-		ns:      subset(t, "caseNamespaces", histNSPool, 1, 3),
+		ns: append(subset(t, "caseNamespaces", histNSPool, 1, 3),
+			subset(t, "caseEdgeBucketNamespaces", histNSEdgePool, 0, 2)...),
 		metrics: subset(t, "caseMetrics", histMetricPool, 2, 5),
 		keys:    subset(t, "caseTagKeys", keyUniverse, 1, 3),
 		vals:    subset(t, "caseTagValues", histValPool, 3, 6),
